@@ -14,6 +14,8 @@ pub enum ScalarMode {
     OptStr,
     /// scalars through deserialize_any
     Any,
+    /// every scalar through deserialize_i64
+    Int,
 }
 
 pub struct ShapeSeed<'a> {
@@ -30,6 +32,12 @@ impl<'de, 'a> Visitor<'de> for SV<'a> {
     }
     fn visit_str<E>(self, v: &str) -> Result<U, E> {
         Ok(U::Str(v.to_string()))
+    }
+    fn visit_i64<E>(self, v: i64) -> Result<U, E> {
+        Ok(U::Int(v as i128))
+    }
+    fn visit_u64<E>(self, v: u64) -> Result<U, E> {
+        Ok(U::Int(v as i128))
     }
     fn visit_string<E>(self, v: String) -> Result<U, E> {
         Ok(U::Str(v))
@@ -71,7 +79,11 @@ impl<'de, 'a> Visitor<'de> for SV<'a> {
         loop {
             let e = entries.get(i).or(entries.last());
             // keys follow the shape of the i-th reference key; scalars keys always as strings
-            let kmode = if self.0.mode == ScalarMode::Any { ScalarMode::Any } else { ScalarMode::Str };
+            let kmode = match self.0.mode {
+                ScalarMode::Any => ScalarMode::Any,
+                ScalarMode::Int => ScalarMode::Int,
+                _ => ScalarMode::Str,
+            };
             match a.next_key_seed(ShapeSeed { shape: e.map(|e| &e.0), mode: kmode })? {
                 Some(k) => {
                     let v = a.next_value_seed(ShapeSeed { shape: e.map(|e| &e.1), mode: self.0.mode })?;
@@ -95,6 +107,7 @@ impl<'de, 'a> DeserializeSeed<'de> for ShapeSeed<'a> {
                 ScalarMode::Str => d.deserialize_string(SV(self)),
                 ScalarMode::OptStr => d.deserialize_option(SV(self)),
                 ScalarMode::Any => serde::Deserialize::deserialize(d),
+                ScalarMode::Int => d.deserialize_i64(SV(self)),
             },
             _ => serde::Deserialize::deserialize(d),
         }
